@@ -35,6 +35,8 @@ HSELS = [0.0, 0.3 - 0.5j]
 EPS = 2e-4
 CUT = 10
 COMMON = ["Vac", "Coh(.3,.5)", "Sq(.25,.4)", "Th(.3)", "D(.3,.4)", "S(.25,.3)", "R(.7)", "BS(.5,.3)", "BS(.5,.3).H", "S2(.2,.5)", "Loss(.6)"]
+CUT3 = 5
+SMALL3 = ["Coh(.3,.5)", "Th(.3)", "BS(.5,.3)", "S2(.2,.5)"]
 SMALL = ["Coh(.3,.5)", "Sq(.25,.4)", "Th(.3)", "D(.3,.4)", "R(.7)", "BS(.5,.3)", "S2(.2,.5)", "Loss(.6)"]
 
 
@@ -55,10 +57,10 @@ def pool(n, labels, depth):
     return out
 
 
-def make_state(kind, n, hist):
-    b = physics.new_backend(kind, n, CUT)
+def make_state(kind, n, hist, c=CUT):
+    b = physics.new_backend(kind, n, c)
     for lab, modes in hist:
-        physics.apply_impl(b, kind, physics.make_op(lab, CUT), modes)
+        physics.apply_impl(b, kind, physics.make_op(lab, c), modes)
     return b
 
 
@@ -244,6 +246,68 @@ def check_gauss_counting(n, hist, res):
                     res.violation(f"C06|{which}|sample-routing|gaussian", f"{which} on modes {list(modes)}: sampler answered column j with 10+j, backend returned {np.array(val).tolist()}", case)
 
 
+# ----------------------------------------------------------------------------- threshold detection on the bosonic simulator
+def moments(weights, means, covs):
+    """first and second moments of a weighted sum of Gaussians"""
+    w = np.asarray(weights)
+    m = np.einsum("i,ij->j", w, means)
+    S = np.einsum("i,ijk->jk", w, covs) + np.einsum("i,ij,ik->jk", w, means, means)
+    return np.real_if_close(w.sum()), m, S
+
+
+def check_bosonic_threshold(n, hist, res):
+    ref0 = ref_state(n, hist)
+    ix = physics.xpxp_to_xxpp_idx(n)
+    for mode in range(n):
+        case = {"kind": "bosonic", "n": n, "hist": [[l, list(m)] for l, m in hist], "meas": "threshold", "mode": mode}
+        mu_m, V_m = ref0.reduced([mode])
+        Q = V_m + np.eye(2)
+        p0 = 2.0 / math.sqrt(np.linalg.det(Q)) * math.exp(-0.5 * mu_m @ np.linalg.solve(Q, mu_m))  # <0|rho|0>, hbar = 2
+
+        def menu(fn, a):
+            if fn == "choice" and a["p"] is not None:
+                return [0, 1]
+            return default_menu(fn, a)
+
+        for answer in (0, 1):
+            res.n += 1
+            ch = Chooser([answer], menu)
+            with ch:
+                b = make_state("bosonic", n, hist)
+                try:
+                    val = apply_meas(b, ops.MeasureThreshold(), [mode])
+                except Exception as e:  # noqa: BLE001
+                    res.violation(f"C06|threshold|raises|{type(e).__name__}|bosonic", f"threshold detection of mode {mode} of {htag(hist)} raised {e!r}", case)
+                    continue
+            d = [x for x in ch.draws if x.fn == "choice"]
+            if len(d) != 1:
+                res.violation("C06|threshold|draws|bosonic", f"threshold detection used {len(d)} draws", case)
+                continue
+            p = np.asarray(d[0].args["p"], dtype=float)
+            if p.shape != (2,) or abs(p[0] - p0) > 1e-8 or abs(p[1] - (1 - p0)) > 1e-8:
+                res.violation("C06|threshold|born-distribution|bosonic", f"threshold detection of mode {mode} of {htag(hist)}: no-click/click asked with probabilities {p.tolist()}, Born rule gives [{p0:.8g}, {1 - p0:.8g}]", case)
+                continue
+            if int(np.ravel(val)[0]) != answer:
+                res.violation("C06|threshold|returned-value|bosonic", f"threshold detection drew {answer}, returned {val}", case)
+            # reference post-states: no click = projection on vacuum; click = (rho_traced - p0 rho_noclick) / (1 - p0)
+            noclick = ref0.copy().condition_heterodyne(mode, 0.0)
+            traced = ref0.copy()
+            traced.loss(0.0, mode)
+            if answer == 0:
+                w_r, m_r, S_r = moments([1.0], np.array([noclick.mu]), np.array([noclick.V]))
+            else:
+                if 1 - p0 < 1e-9:
+                    continue
+                w_r, m_r, S_r = moments([1 / (1 - p0), -p0 / (1 - p0)], np.array([traced.mu, noclick.mu]), np.array([traced.V, noclick.V]))
+            with warnings.catch_warnings():
+                warnings.simplefilter("ignore")
+                st = b.state()
+            w_g, m_g, S_g = moments(np.array(st.weights()), np.array(st.means())[:, ix], np.array(st.covs())[:, ix][:, :, ix])
+            dd = max(abs(w_g - w_r), np.max(np.abs(m_g - m_r)), np.max(np.abs(S_g - S_r)))
+            if dd > 1e-7:
+                res.violation(f"C06|threshold|conditional-state|{'click' if answer else 'no-click'}|bosonic", f"threshold detection of mode {mode} of {htag(hist)} with outcome {answer}: total weight / first / second moments of the post-state differ from the reference conditional state by {dd:.3g}", dict(case, answer=answer))
+
+
 # ----------------------------------------------------------------------------- Fock simulator
 def hermite_fn(x, c, hbar=2.0):
     """<n|x> for n < c"""
@@ -257,10 +321,9 @@ def hermite_fn(x, c, hbar=2.0):
     return out
 
 
-def check_fock(n, hist, pure, res):
+def check_fock(n, hist, pure, res, c=CUT):
     kind = "fock_pure" if pure else "fock_mixed"
-    c = CUT
-    b0 = make_state(kind, n, hist)
+    b0 = make_state(kind, n, hist, c)
     rho0 = physics.Obs(b0, kind, n, c).rho
     f0 = fr.FState(n, c, rho0 / np.trace(rho0).real)
     # photon counting: every ordered subset, every outcome of the menu
@@ -281,9 +344,17 @@ def check_fock(n, hist, pure, res):
             while stack:
                 prefix = stack.pop()
                 ch = Chooser(prefix, menu)
+                err = None
                 with ch:
-                    b = make_state(kind, n, hist)
-                    val = apply_meas(b, ops.MeasureFock(), list(modes))
+                    b = make_state(kind, n, hist, c)
+                    try:
+                        val = apply_meas(b, ops.MeasureFock(), list(modes))
+                    except Exception as e:  # noqa: BLE001
+                        err = e
+                if err is not None:
+                    res.n += 1
+                    res.violation(f"C06|fock|raises|{type(err).__name__}|{kind}", f"photon counting of modes {list(modes)} of {htag(hist)} raised {err!r} (chooser answers {[x.chosen for x in ch.draws]})", dict(case, answers=[x.chosen for x in ch.draws]))
+                    continue
                 for i in range(len(prefix), len(ch.draws)):
                     for alt in range(1, len(ch.draws[i].menu)):
                         stack.append([d.chosen for d in ch.draws[:i]] + [alt])
@@ -305,13 +376,14 @@ def check_fock(n, hist, pure, res):
                 got = physics.Obs(b, kind, n, c).rho
                 if tr > 1e-12 and np.max(np.abs(got - post.rho / tr)) > 1e-8:
                     res.violation(f"C06|fock|conditional-state|{kind}", f"photon counting of modes {list(modes)} of {htag(hist)} with outcome {exp_val}: post-state differs from the projected and reset reference state by {np.max(np.abs(got - post.rho / tr)):.3g}", dict(case, answers=[x.chosen for x in ch.draws]))
-    # homodyne, post-selected: projection on the quadrature eigenstate
-    for mode in range(n):
+    # homodyne, post-selected: projection on the quadrature eigenstate (only at the full cutoff: at the small
+    # 3-mode cutoff the truncated quadrature eigenstate is representation dependent at the 1e-4 level)
+    for mode in range(n if c >= CUT else 0):
         for phi in PHIS[:3]:
             for sel in SELS:
                 res.n += 1
                 case = {"kind": kind, "n": n, "hist": [[l, list(m)] for l, m in hist], "meas": "homodyne-select", "phi": phi, "mode": mode, "select": sel}
-                b = make_state(kind, n, hist)
+                b = make_state(kind, n, hist, c)
                 apply_meas(b, ops.MeasureHomodyne(phi, select=sel), [mode])
                 got = physics.Obs(b, kind, n, c).rho
                 bra = hermite_fn(sel, c) * np.exp(-1j * phi * np.arange(c))  # <x_phi| n> = psi_n(x) e^{-i n phi}
@@ -341,9 +413,13 @@ def check_collation(n, res):
                     else:
                         ops.MeasureFock() | tuple(q[m] for m in modes)
                 eng = sf.Engine("fock", backend_options={"cutoff_dim": n + 2})
-                with warnings.catch_warnings():
-                    warnings.simplefilter("ignore")
-                    r = eng.run(prog)
+                try:
+                    with warnings.catch_warnings():
+                        warnings.simplefilter("ignore")
+                        r = eng.run(prog)
+                except Exception as e:  # noqa: BLE001
+                    res.violation(f"C06|samples|raises|{type(e).__name__}", f"modes {list(modes)} (mode i holds i+1 photons) measured {'separately' if split else 'together'}: run raised {e!r}", case)
+                    continue
                 S = np.array(r.samples)
                 exp = [[m + 1 for m in sorted(modes)]]
                 if S.tolist() != exp:
@@ -364,8 +440,10 @@ def work(task):
             check_dyne(kind, n, hist, res)
         elif what == "gcount":
             check_gauss_counting(n, hist, res)
+        elif what == "bthr":
+            check_bosonic_threshold(n, hist, res)
         elif what == "fock":
-            check_fock(n, hist, kind == "fock_pure", res)
+            check_fock(n, hist, kind == "fock_pure", res, CUT if n == 2 else CUT3)
         if hist:
             res.nt += res.n - n0
         if len(hist) == 2:
@@ -386,12 +464,19 @@ def run(ctx):
                 tasks.append(("dyne", kind, n, hs[i : i + ch]))
         for i in range(0, len(hs), ch):
             tasks.append(("gcount", "gaussian", n, hs[i : i + ch]))
+            tasks.append(("bthr", "bosonic", n, hs[i : i + ch]))
     hs = pool(2, SMALL, 1 if quick else 2)
     states += len(hs)
     ch = max(1, len(hs) // 16)
     for kind in ("fock_pure", "fock_mixed"):
         for i in range(0, len(hs), ch):
             tasks.append(("fock", kind, 2, hs[i : i + ch]))
+    # three modes on the Fock simulator (every ordered subset incl. the cyclic orders), smaller cutoff
+    hs = pool(3, SMALL3, 1)
+    states += len(hs)
+    for kind in ("fock_pure", "fock_mixed"):
+        for i in range(0, len(hs), 2):
+            tasks.append(("fock", kind, 3, hs[i : i + 2]))
     for r in ctx.pmap(work, tasks):
         ctx.add(r)
         if ctx.time_left() < 0:
@@ -417,7 +502,9 @@ def replay(case):
     hist = tuple((l, tuple(m)) for l, m in case["hist"])
     kind, n = case["kind"], case["n"]
     if kind.startswith("fock"):
-        check_fock(n, hist, kind == "fock_pure", res)
+        check_fock(n, hist, kind == "fock_pure", res, CUT if n == 2 else CUT3)
+    elif kind == "bosonic" and case["meas"] == "threshold":
+        check_bosonic_threshold(n, hist, res)
     elif case["meas"] in ("fock", "threshold"):
         check_gauss_counting(n, hist, res)
     else:
